@@ -15,7 +15,7 @@ Model driver for C15 (strings). Stateful line protocol (one request → one resp
     trailing (G …) lists give the grapheme-cluster byte lengths of the strings whose segmentation
     the operation may consult (the harness computes them with unicode-segmentation).
 
-  ops: idx D lo hi | rng D lo hi | unpx D | unph D k | unpt D k | chars D | rchars D | cidx D | bytes D | lines D
+  ops: apiwb D hi | fmtf <xopts> f<bits> (float value: never compared, answer `F`) | idx D lo hi | rng D lo hi | unpx D | unph D k | unpt D k | chars D | rchars D | cidx D | bytes D | lines D
        | trim D | trimp D <xpat> | pat D <xpat> | replace D <xpat> <xto> | repeat D n | case D
        | tonum <xhex> | tonumb <xhex> base | lit <xhex> | fparse <xhex> | fmt <xopts> <val>
   Responses: canonical values `s<xhex> | null | b0 | b1 | i<n> | F | (r a b 0) | (t …)`,
@@ -41,6 +41,9 @@ structure DSt where
   fix2 : Bool := false
   fix3 : Bool := false
   fix6 : Bool := false
+  fix8 : Bool := false
+  fix9 : Bool := false
+  fix10 : Bool := false
 
 structure SegTab where
   s : Bytes
@@ -170,16 +173,27 @@ def handleOp (st : DSt) (line : String) : String :=
      | _, _, _ => "bad-request")
   | ["unpx", d] =>
     (match parseDesc d with
-     | some s => resStr (unpackExact s s.len)
+     | some s => resStr (unpackExact s s.len st.fix9)
      | none => "bad-request")
   | ["unph", d, k] =>
     (match parseDesc d, k.toNat? with
-     | some s, some k => resStr (unpackHead s k)
+     | some s, some k => resStr (unpackHead s k st.fix9)
      | _, _ => "bad-request")
   | ["unpt", d, k] =>
     (match parseDesc d, k.toNat? with
-     | some s, some k => resStr (unpackTail s k)
+     | some s, some k => resStr (unpackTail s k st.fix9)
      | _, _ => "bad-request")
+  | ["apiwb", d, hi] =>
+    -- the public `KString::with_bounds(a..b)` for all 0 ≤ a, b ≤ hi (beyond the string's own end too)
+    (match parseDesc d, hi.toNat? with
+     | some s, some hi =>
+       let r := List.range (hi + 1)
+       spaced (r.flatMap fun a => r.map fun b =>
+         match s.withBoundsApi a b st.fix10 with
+         | some t => "s" ++ hexOfBytes t.bytes
+         | none => "none")
+     | _, _ => "bad-request")
+  | ["fmtf", _, _] => "F"
   | ["chars", d] =>
     (match parseDesc d with
      | some s =>
@@ -266,14 +280,14 @@ def handleOp (st : DSt) (line : String) : String :=
   | ["fparse", h] =>
     (match bytesOfHex h with
      | some b =>
-       (match parse U.gFirst b with
+       (match parse U.gFirst b st.fix8 with
         | .ok o => optStr o
         | .error e => pErrStr e)
      | none => "bad-request")
   | ["fmt", h, v] =>
     (match bytesOfHex h, parseFVal v with
      | some b, some v =>
-       (match format U.gFirst b v st.fix2 with
+       (match format U.gFirst b v st.fix2 st.fix8 with
         | .ok r => "s" ++ hexOfBytes r
         | .error e => pErrStr e)
      | _, _ => "bad-request")
@@ -295,7 +309,8 @@ def step (st : DSt) (line : String) : DSt × String :=
   else if line.startsWith "fixes" then
     let ids := line.splitOn " "
     ({ st with fix1 := st.fix1 || ids.contains "F-C15-1", fix2 := st.fix2 || ids.contains "F-C15-2",
-               fix3 := st.fix3 || ids.contains "F-C15-3", fix6 := st.fix6 || ids.contains "F-C15-6" }, "ok")
+               fix3 := st.fix3 || ids.contains "F-C15-3", fix6 := st.fix6 || ids.contains "F-C15-6", fix8 := st.fix8 || ids.contains "F-C15-8",
+               fix9 := st.fix9 || ids.contains "F-C15-9", fix10 := st.fix10 || ids.contains "F-C15-10" }, "ok")
   else (st, handleOp st line)
 
 def main : IO Unit := Proto.serveSt ({} : DSt) step
